@@ -148,6 +148,8 @@ func (v *SpyVerifier) Verify(content, signature []byte) error {
 		return ErrVerifier
 	case "accept":
 		return nil
+	case "reject":
+		return cose.ErrVerification
 	}
 	return v.Inner.Verify(content, signature)
 }
